@@ -55,6 +55,9 @@ def gen_ledger(rng, n_txn=None, with_queries=False, with_errors=False, rich=True
              'links': sorted(rng.sample(LINKS, rng.choice([0, 0, 0, 1]))),
              'postings': []}
         P = t['postings']
+        if rich and rng.random() < 0.3:
+            # user metadata: string values, some numeric-looking, some not (implicit and explicit casts)
+            t['meta'] = {'qty': rng.choice(['12.5', '3', 'abc', '1e3', '', '7.00', 'n/a'])}
         if kind == 'cash':
             cur = rng.choice(['USD', 'USD', 'EUR'])
             amt = D(rng.randint(1, 200000)) / 100
@@ -146,6 +149,8 @@ def render_ledger(spec):
             for l in d.get('links', ()):
                 head += f' ^{l}'
             out.append(head)
+            for mk, mv in sorted((d.get('meta') or {}).items()):
+                out.append(f'  {mk}: "{mv}"')
             for p in d['postings']:
                 line = f'  {p["acct"]}'
                 if p.get('units'):
